@@ -120,7 +120,7 @@ class Program:
 
     # ---- sources: enum variant order, impl self types ---------------------------------------
     def _scan_sources(self):
-        pats = [os.path.join(self.src_root, self.crate_dir, "src", "**", "*.rs"),
+        pats = [os.path.join(self.src_root, self.crate_dir, "src", "**", "*.rs"), os.path.join(self.src_root, self.crate_dir, "*.rs"),
                 os.path.join(self.src_root, "markup5ever", "**", "*.rs")]
         for pat in pats:
             for p in glob.glob(pat, recursive=True):
